@@ -33,7 +33,7 @@ var c16TreeCfg = h.TreeCfg{
 	MaxEntries: 14, MaxDepth: 4,
 	Names:  []string{"a", "b", "c", "ab", "a-b", "a.b", "a0", "d", "x", "foo", "bar", "baz"},
 	Kinds:  []h.Kind{h.KFile, h.KFile, h.KFile, h.KSymlink, h.KFifo},
-	Xattrs: true, BigXattrs: true, Hardlinks: true, SymTargets: []string{"a", "../b", "/c", "dangling"}, UncleanTargets: true,
+	Xattrs: true, XattrNS: []string{"user.", "trusted."}, BigXattrs: true, Hardlinks: true, SymTargets: []string{"a", "../b", "/c", "dangling"}, UncleanTargets: true,
 }
 
 func genC16(t *rapid.T) *c16Case {
